@@ -348,7 +348,7 @@ def run_names(names):
         eng = w.add_engine("A")
         w.create_state_machine("host", {"StartAt": "P", "States": {"P": {"Type": "Pass", "End": True}}})
         for label, name in names:
-            valid = 1 <= len(name) <= 80 and not (set(name) & set(FORBIDDEN))
+            valid = 1 <= len(name) <= 80 and not (set(name) & set(FORBIDDEN)) and not any(ord(ch) < 32 or 127 <= ord(ch) < 160 for ch in name)
             st, r = w.create_state_machine(name, {"StartAt": "P", "States": {"P": {"Type": "Pass", "End": True}}})
             st2, r2 = w.start_execution(W.sm_arn("host"), {}, name=name)
             for what, s_, r_ in (("machine", st, r), ("execution", st2, r2)):
@@ -473,6 +473,10 @@ def window_scenarios():
     names += [("forbidden-%02x" % ord(c), "a" + c + "b") for c in FORBIDDEN]
     names += [("allowed-%02x" % ord(c), "a" + c + "b") for c in ALLOWED_PUNCT]
     names += [("len80-with-dot", "n" * 79 + "."), ("len81-forbidden", "n" * 80 + "*")]
+    # a line break (or another control character) in last position: 80 legal characters followed by it are 81 characters, over the limit whatever one thinks of the character;
+    # shorter ones are refused for the character (the API reference excludes U+0000-001F and U+007F-009F; C17 enumerates these completely for short names)
+    names += [("len81-trailing-%02x" % ord(c), "n" * 80 + c) for c in "\n\r\t\x00\x7f"] + [("len82-trailing-0a", "n" * 81 + "\n"), ("len161-trailing-0a", "n" * 160 + "\n")]
+    names += [("control-%02x-%s" % (ord(c), pos), nm) for c in "\n\r\x1f" for pos, nm in (("last", "ab" + c), ("first", c + "ab"), ("middle", "a" + c + "b"), ("last-len80", "n" * 79 + c))]
     for i in range(0, len(names), 12):
         out.append({"kind": "names", "names": names[i:i + 12]})
     out.append({"kind": "history-within", "n": 200})
@@ -555,7 +559,7 @@ def main(tier, seed, replay=None):
         "the text the engine reports coincide. Texts in another spacing are used where the value is discarded by the machine (task replies in compact and in padded form with ResultPath null), and definitions "
         "dense in characters that must be escaped again in the request body (quotes, backslashes, new lines, non-ASCII letters) are sent at L-1, L, L+1",
         "for Map/Parallel/ResultSelector places the state's input is kept far below the limit so that only the output crosses it",
-        "names: validity = 1..80 characters and none of the forbidden characters listed in the AWS API reference; control characters are not generated",
+        "names: validity = 1..80 characters and none of the forbidden characters listed in the AWS API reference; control characters (refused) only in the directed names: last / first / middle position and after 79..160 legal characters",
         "history: machines whose history grows for ever in seven different ways (Pass/Choice/Task/Wait loops, one Task or Parallel retried without end, one Map re-entered per MaxConcurrency block) are run until they end; "
         "'rather than growing without bound' is checked as: FAILED with more than 25000 and at most 25000+60 events",
     ]
